@@ -271,8 +271,10 @@ def main():
     ev = {'property_id': pid, 'tier': tier, 'seed': seed, 'level': 'proof', 'coverage': cov,
           'assumptions': getattr(mod, 'ASSUMPTIONS', []), 'wall_s': round(time.time() - res.t0, 2),
           'violations': nviol}
-    os.makedirs(os.path.join(VERIF, 'evidence'), exist_ok=True)
-    with open(os.path.join(VERIF, 'evidence', pid + '.json'), 'w') as f:
+    # evidence describes runs against /repo itself; a run against another tree (VERIF_REPO, used to try seeded changes) writes elsewhere
+    evdir = os.path.join(VERIF, 'evidence') if os.path.realpath(common.REPO) == '/repo' else os.path.join('/tmp', 'verif-evidence-other-tree')
+    os.makedirs(evdir, exist_ok=True)
+    with open(os.path.join(evdir, pid + '.json'), 'w') as f:
         json.dump(ev, f, indent=1, default=str)
     if exit_code == 0:
         print(f'OK {pid}: {len(discharged)}/{len(thms)} theorems, {res.evaluations} cases '
